@@ -285,11 +285,21 @@ def check_d1(case, rec):
         except molgen.Reject as e:
             rec.count(f'generator-reject:{e}')
             return
-    r = smiles_ref.write_random(m, case['seed'])
+    # atom maps: none / every atom (its own number) / a drawn subset with drawn unique numbers
+    mrnd = _random.Random(case['seed'] ^ 0x5bd1e995)
+    mode = mrnd.choice(['none', 'none', 'none', 'all', 'partial'])
+    maps = None
+    if mode == 'all':
+        maps = True
+    elif mode == 'partial':
+        nums = mrnd.sample(range(1, len(m) + 8), len(m))
+        maps = {n: k for n, k in zip(m, nums) if mrnd.random() < .5} or None
+    r = smiles_ref.write_random(m, case['seed'], style=dict(mapping=maps) if maps else None)
     if r is None:
         rec.count('writer-not-applicable')
         return
     text, order = r
+    rec.count(f'd1:maps-{mode}')
     rec.count('d1:strings')
     if nontrivial_text(text):
         rec.nt(text)
@@ -391,18 +401,28 @@ def check_rxn(case, rec):
     radicals = []
     frag_groups = []
     mol_index = 0
+    # atom maps: none / all / a drawn subset, numbers unique over the whole reaction and dense (so that the numbers the reader
+    # gives to unmapped atoms run into the mapped ones unless it starts above all of them)
+    map_mode = rnd.choice(['none', 'none', 'all', 'partial', 'partial'])
+    pool = (k for lo in range(1, 2000, 40) for k in rnd.sample(range(lo, lo + 40), 40))
+    all_maps = []  # per role, per molecule: list (written order) of map or None
     for role in case['rxn']:
         txts, mols = [], []
+        all_maps.append([])
         for spec in role:
             try:
                 m = molgen.build(spec)
             except molgen.Reject as e:
                 rec.count(f'generator-reject:{e}')
                 continue
-            r = smiles_ref.write_random(m, rnd.randrange(2 ** 31), style=dict(big_closures=False))
+            maps = None
+            if map_mode != 'none' and len(m) < 40:
+                maps = {n: next(pool) for n in m if map_mode == 'all' or rnd.random() < .5}
+            r = smiles_ref.write_random(m, rnd.randrange(2 ** 31), style=dict(big_closures=False, mapping=maps or False))
             if r is None:
                 continue
             t, order = r
+            all_maps[-1].append([maps.get(n) if maps else None for n in order])
             body = t.split(' |')[0]
             radicals += [n_atoms + i for i, n in enumerate(order) if m.atom(n).is_radical]
             n_atoms += len(order)
@@ -438,6 +458,18 @@ def check_rxn(case, rec):
         rec.fail('rxn-roles', f'{text!r}: role sizes {[len(x) for x in roles_mol]} written, {[len(x) for x in got]} read',
                  sig='empty-role' if any(not x for x in roles_mol) else '')
         return
+    rec.count(f'rxn:maps-{map_mode}')
+    numbers = [n for gm in got for x in gm for n in x]
+    if len(set(numbers)) != len(numbers) and map_mode != 'none':
+        rec.fail('rxn-maps', f'{text!r}: atom numbers are not unique over the reaction although every written map is')
+        return
+    for gm, wm, mm in zip(got, roles_mol, all_maps):
+        for x, (m, order), ml in zip(gm, wm, mm):
+            if len(x) == len(m):
+                for n, k in zip(x, ml):
+                    if k is not None and n != k:
+                        rec.fail('rxn-maps', f'{text!r}: atom written with map {k} got number {n}', sig='moved')
+                        return
     for gm, wm in zip(got, roles_mol):
         for x, (m, order) in zip(gm, wm):
             if len(x) != len(m):
